@@ -5,11 +5,158 @@ package main
 // Lean model (lean/Pandora/Model/C15*.lean) by lean/Pandora/Drv/C15.lean.
 
 import (
+	"bufio"
+	"bytes"
+	"fmt"
+	"io"
+	"os"
+	"os/exec"
 	"strings"
+	"sync"
 	"time"
 
 	"verifharness/drv"
 )
+
+// ---- child processes -------------------------------------------------------------------------------------------
+//
+// The cases are executed in child processes (this binary with C15_CHILD=1, one case at a time per child, protocol:
+// one input line in, one observation line out). A Go runtime FATAL error of the code under test — `concurrent map
+// writes`, a detected data race in the -race build (GORACE=halt_on_error=1), a deadlock — cannot be recovered in
+// process and would take the whole run down without naming a case; this way it kills one child, the case in flight
+// gets the observation `FATAL <first line of the runtime's message>` (a concrete failing input) and a fresh child
+// takes over.
+
+type child struct {
+	cmd    *exec.Cmd
+	in     io.WriteCloser
+	out    *bufio.Reader
+	errBuf *tailBuf
+}
+
+type tailBuf struct {
+	mu sync.Mutex
+	b  bytes.Buffer
+}
+
+func (t *tailBuf) Write(p []byte) (int, error) {
+	t.mu.Lock()
+	defer t.mu.Unlock()
+	if t.b.Len() < 1<<16 {
+		t.b.Write(p)
+	}
+	return len(p), nil
+}
+
+func (t *tailBuf) firstFatal() string {
+	t.mu.Lock()
+	defer t.mu.Unlock()
+	for _, l := range strings.Split(t.b.String(), "\n") {
+		l = strings.TrimSpace(l)
+		switch {
+		case strings.HasPrefix(l, "fatal error:"), strings.HasPrefix(l, "WARNING: DATA RACE"), strings.HasPrefix(l, "panic:"):
+			return l
+		}
+	}
+	return "child process died"
+}
+
+func startChild() (*child, error) {
+	cmd := exec.Command(os.Args[0])
+	cmd.Env = append(os.Environ(), "C15_CHILD=1", "GORACE=halt_on_error=1")
+	in, err := cmd.StdinPipe()
+	if err != nil {
+		return nil, err
+	}
+	out, err := cmd.StdoutPipe()
+	if err != nil {
+		return nil, err
+	}
+	tb := &tailBuf{}
+	cmd.Stderr = tb
+	if err := cmd.Start(); err != nil {
+		return nil, err
+	}
+	return &child{cmd: cmd, in: in, out: bufio.NewReaderSize(out, 1<<20), errBuf: tb}, nil
+}
+
+func (c *child) kill() {
+	_ = c.in.Close()
+	_ = c.cmd.Process.Kill()
+	_, _ = c.cmd.Process.Wait()
+}
+
+var (
+	poolOnce sync.Once
+	pool     chan *child
+)
+
+const nChildren = 4
+
+func runViaChild(input string) string {
+	poolOnce.Do(func() {
+		pool = make(chan *child, nChildren)
+		for i := 0; i < nChildren; i++ {
+			pool <- nil // started lazily
+		}
+	})
+	c := <-pool
+	if c == nil {
+		var err error
+		if c, err = startChild(); err != nil {
+			pool <- nil
+			return "err=child:" + esc(err.Error())
+		}
+	}
+	type res struct {
+		line string
+		err  error
+	}
+	done := make(chan res, 1)
+	go func() {
+		if _, err := io.WriteString(c.in, input+"\n"); err != nil {
+			done <- res{"", err}
+			return
+		}
+		l, err := c.out.ReadString('\n')
+		done <- res{strings.TrimRight(l, "\n"), err}
+	}()
+	select {
+	case r := <-done:
+		if r.err != nil {
+			c.kill()
+			pool <- nil
+			return "FATAL " + drv.Clean(c.errBuf.firstFatal())
+		}
+		pool <- c
+		return r.line
+	case <-time.After(25 * time.Second):
+		c.kill()
+		pool <- nil
+		return "HANG"
+	}
+}
+
+func childLoop() {
+	in := bufio.NewReaderSize(os.Stdin, 1<<20)
+	out := bufio.NewWriter(os.Stdout)
+	for {
+		l, err := in.ReadString('\n')
+		if err != nil {
+			return
+		}
+		obs := func() (o string) {
+			defer func() {
+				if r := recover(); r != nil {
+					o = "PANIC " + drv.Clean(fmt.Sprint(r))
+				}
+			}()
+			return run(strings.TrimRight(l, "\n"))
+		}()
+		_, _ = out.WriteString(strings.ReplaceAll(obs, "\n", " ") + "\n")
+		_ = out.Flush()
+	}
+}
 
 func run(input string) string {
 	kv := drv.KV(input)
@@ -28,6 +175,8 @@ func class(input, obs string) string {
 	kv := drv.KV(input)
 	c := kv["kind"]
 	switch {
+	case strings.HasPrefix(obs, "FATAL"):
+		return c + "/fatal"
 	case strings.HasPrefix(obs, "panic"):
 		return c + "/panic"
 	case strings.HasPrefix(obs, "err="):
@@ -53,10 +202,28 @@ func class(input, obs string) string {
 }
 
 func main() {
+	if os.Getenv("C15_CHILD") == "1" {
+		childLoop()
+		return
+	}
+	defer func() {
+		if pool == nil {
+			return
+		}
+		for i := 0; i < nChildren; i++ {
+			select {
+			case c := <-pool:
+				if c != nil {
+					c.kill()
+				}
+			default:
+			}
+		}
+	}()
 	drv.Main(&drv.Prop{
 		ID:      "C15",
 		Gen:     gen,
-		Run:     run,
+		Run:     runViaChild,
 		Class:   class,
 		Workers: 4,
 		Timeout: 30 * time.Second,
